@@ -313,7 +313,7 @@ theorem serveFrom_file (s : Server) (t : Target) (e : Env) (addr : Bytes) (cred 
                     hscript, hfs, hsl, ?_, ?_, ?_, ?_⟩
             · simpa using hacc
             · simpa using hacc2
-            · simpa using hex
+            · simp
             · intro hs
               simp only [hs, Bool.true_and, Bool.not_eq_true', Bool.not_eq_false] at hauth
               simpa using hauth
@@ -450,5 +450,52 @@ theorem authRule_casefold (rules : List Bytes) (p q : Bytes) (h : p.map toLower 
 theorem authRule_append (rules : List Bytes) (p x : Bytes) (lc : Bool) (i : Nat)
     (h : authRule rules p lc = some i) : ∃ j, j ≤ i ∧ authRule rules (p ++ x) lc = some j :=
   findIdx?_mono _ _ rules (fun k _ hk => preMatch_append lc k p x hk) i h
+
+end LtVerif.Access
+
+namespace LtVerif.Access
+open LtVerif B
+
+/-! ### PCRE2's UTF-8 check does not depend on ASCII letter case -/
+
+theorem u8Lead_fold (b : UInt8) : u8Lead (toLower b) = u8Lead b := by
+  have := forall_uint8 (fun b => u8Lead (toLower b) == u8Lead b) (by decide +kernel) b
+  simpa using this
+
+theorem u8Has_fold (r : U8Range) (b : UInt8) : r.has (toLower b) = r.has b := by
+  cases r
+  all_goals
+    first
+    | (have := forall_uint8 (fun b => U8Range.has .r80bf (toLower b) == U8Range.has .r80bf b) (by decide +kernel) b
+       simpa using this)
+    | (have := forall_uint8 (fun b => U8Range.has .ra0bf (toLower b) == U8Range.has .ra0bf b) (by decide +kernel) b
+       simpa using this)
+    | (have := forall_uint8 (fun b => U8Range.has .r809f (toLower b) == U8Range.has .r809f b) (by decide +kernel) b
+       simpa using this)
+    | (have := forall_uint8 (fun b => U8Range.has .r90bf (toLower b) == U8Range.has .r90bf b) (by decide +kernel) b
+       simpa using this)
+    | (have := forall_uint8 (fun b => U8Range.has .r808f (toLower b) == U8Range.has .r808f b) (by decide +kernel) b
+       simpa using this)
+
+theorem u8Step_fold (st : Option U8St) (b : UInt8) : u8Step st (toLower b) = u8Step st b := by
+  cases st with
+  | none => rfl
+  | some st => simp only [u8Step, u8Lead_fold, u8Has_fold]
+
+theorem validUtf8_fold (u : Bytes) : validUtf8 (u.map toLower) = validUtf8 u := by
+  unfold validUtf8
+  rw [List.foldl_map]
+  simp only [u8Step_fold]
+
+/-- `(?i)^lit` / `(?i)lit$` (PCRE2, UTF mode) do not distinguish the letter case of the URL -/
+theorem reCaselessPrefix_fold (lit u v : Bytes) (h : u.map toLower = v.map toLower) :
+    reCaselessPrefix lit u = reCaselessPrefix lit v := by
+  unfold reCaselessPrefix
+  rw [← validUtf8_fold u, ← validUtf8_fold v, h, preMatch_casefold lit u v h]
+
+theorem reCaselessSuffix_fold (lit u v : Bytes) (h : u.map toLower = v.map toLower) :
+    reCaselessSuffix lit u = reCaselessSuffix lit v := by
+  unfold reCaselessSuffix
+  rw [← validUtf8_fold u, ← validUtf8_fold v, h, sufMatch_casefold lit u v h]
 
 end LtVerif.Access
